@@ -424,7 +424,7 @@ func (fr *Frame) nilGoal(v ssa.Value, t Term) Term {
 	if fr.trustedNonNil(v) {
 		return "true"
 	}
-	if p, ok := fr.prov[t]; ok {
+	if p, ok := fr.vc.prov[t]; ok {
 		goal = Or(goal, Eq(t, p))
 	}
 	return goal
@@ -435,6 +435,14 @@ func (fr *Frame) trustedNonNil(v ssa.Value) bool {
 	switch x := v.(type) {
 	case *ssa.Alloc, *ssa.FieldAddr, *ssa.IndexAddr, *ssa.Global, *ssa.MakeClosure, *ssa.MakeMap, *ssa.MakeChan, *ssa.Function:
 		return true
+	case *ssa.UnOp:
+		if g, ok := x.X.(*ssa.Global); ok {
+			// package-level variable only written by initialisation: trusted to be initialised
+			if _, stable := fr.vc.stableGlobal(g); stable {
+				return true
+			}
+		}
+		return false
 	case *ssa.Parameter:
 		return fr.isRoot
 	case *ssa.FreeVar:
@@ -481,7 +489,7 @@ func (fr *Frame) mapUpdate(st *State, x *ssa.MapUpdate) {
 	if vc.opts.Safety {
 		g := Not(Eq(m, "nilref"))
 		if !fr.trustedNonNil(x.Map) {
-			if p, ok := fr.prov[m]; ok {
+			if p, ok := fr.vc.prov[m]; ok {
 				g = Or(g, Eq(m, p))
 			}
 			vc.oblig(fr, st, "nil-map", "", describe(x.Map, 0), g, x.Pos())
@@ -694,7 +702,7 @@ func (fr *Frame) unop(st *State, x *ssa.UnOp) {
 		if sort == "Ref" || sort == "Val" {
 			// provenance: the untouched entry-state value at this address
 			entryVal := sx("select", vc.memInit(vc.memKey(et), "(Array Ref "+sort+")"), a)
-			fr.prov[name] = entryVal
+			fr.vc.prov[name] = entryVal
 		}
 		vc.older(st, name, sort)
 	case token.NOT:
@@ -812,7 +820,7 @@ func (fr *Frame) convert(st *State, x *ssa.Convert) {
 		fr.define(x, tr)
 	case fs == "String" && ts == "Slice":
 		r := vc.alloc(st, fr.prefix+"bytes")
-		s := sx("mk-slice", r, "0", sx("str.len", v), sx("str.len", v))
+		s := vc.mkSlice(r, sx("str.len", v), sx("str.len", v))
 		n := fr.define(x, s)
 		vc.sc.Def(Eq(sx("bstr", n), v))
 	case fs == "Slice" && ts == "String":
@@ -836,7 +844,7 @@ func (fr *Frame) makeSlice(st *State, x *ssa.MakeSlice) {
 		vc.oblig(fr, st, "makeslice-len", "", describe(x.Len, 0), And(sx("<=", "0", ln), sx("<=", ln, cp)), x.Pos())
 	}
 	et := x.Type().Underlying().(*types.Slice).Elem()
-	fr.define(x, sx("mk-slice", r, "0", ln, cp))
+	fr.define(x, vc.mkSlice(r, ln, cp))
 	vc.zeroFill(st, r, et)
 }
 
@@ -858,7 +866,8 @@ func (vc *VC) zeroFill(st *State, r Term, et types.Type) {
 }
 
 func (vc *VC) needElemAxioms() {
-	vc.sc.Axiom("(forall ((?b Ref) (?i Int)) (! (and (= (fbase (elem ?b ?i)) ?b) (= (fidx (elem ?b ?i)) ?i) (= (ftag (elem ?b ?i)) 0) (= (root (elem ?b ?i)) (root ?b))) :pattern ((elem ?b ?i))))")
+	vc.sc.Axiom("(forall ((?b Ref) (?i Int)) (! (and (= (ebase (elem ?b ?i)) (ebase ?b)) (= (eidx (elem ?b ?i)) (+ (eidx ?b) ?i)) (= (ftag (elem ?b ?i)) 0) (= (root (elem ?b ?i)) (root ?b))) :pattern ((elem ?b ?i))))")
+	vc.sc.Axiom("(forall ((?b Ref) (?a Int) (?i Int)) (! (= (elem (elem ?b ?a) ?i) (elem ?b (+ ?a ?i))) :pattern ((elem (elem ?b ?a) ?i))))")
 }
 
 func (fr *Frame) sliceOp(st *State, x *ssa.Slice) {
@@ -886,7 +895,7 @@ func (fr *Frame) sliceOp(st *State, x *ssa.Slice) {
 		if vc.opts.Safety && (x.Low != nil || x.High != nil || x.Max != nil) {
 			vc.oblig(fr, st, "slice-bounds", "", describe(x.X, 0), And(sx("<=", "0", lo), sx("<=", lo, hi), sx("<=", hi, mx), sx("<=", mx, cp)), x.Pos())
 		}
-		fr.define(x, sx("mk-slice", sx("s-base", v), sx("+", sx("s-off", v), lo), sx("-", hi, lo), sx("-", mx, lo)))
+		fr.define(x, vc.mkSlice(vc.elemAddr(vc.sptr(v), lo), sx("-", hi, lo), sx("-", mx, lo)))
 	case *types.Basic: // string
 		if x.High != nil {
 			hi = fr.val(x.High)
@@ -908,7 +917,7 @@ func (fr *Frame) sliceOp(st *State, x *ssa.Slice) {
 		if vc.opts.Safety && (x.Low != nil || x.High != nil) {
 			vc.oblig(fr, st, "slice-bounds", "", describe(x.X, 0), And(sx("<=", "0", lo), sx("<=", lo, hi), sx("<=", hi, n)), x.Pos())
 		}
-		fr.define(x, sx("mk-slice", v, lo, sx("-", hi, lo), sx("-", n, lo)))
+		fr.define(x, vc.mkSlice(vc.elemAddr(v, lo), sx("-", hi, lo), sx("-", n, lo)))
 	default:
 		vc.Abstracted["slice of "+typeKey(x.X.Type())] = true
 		fr.freshVal(x)
@@ -924,7 +933,7 @@ func (fr *Frame) indexAddr(st *State, x *ssa.IndexAddr) {
 		if vc.opts.Safety {
 			vc.oblig(fr, st, "index", "", describe(x.X, 0), And(sx("<=", "0", i), sx("<", i, sx("s-len", v))), x.Pos())
 		}
-		fr.define(x, vc.elemAddr(sx("s-base", v), simplifyAdd(sx("s-off", v), i)))
+		fr.define(x, vc.elemAddr(vc.sptr(v), i))
 	case *types.Pointer:
 		at := t.Elem().Underlying().(*types.Array)
 		fr.derefOblig(st, x.X, describe(x.X, 0), x.Pos())
